@@ -24,6 +24,14 @@ import Reduino.Lang.Tr
       strings where the emitted sum has a `String` object on one side (`Expr.binTyOk`; `s += e` likewise); strings are kept out of conditions (`if`, `while`, `not`, the test of a conditional
       expression: Python tests "non-empty", the `String` class something else), out of counts (`range`, `sleep`: `Expr.okCond`),
       out of every other arithmetic and out of comparisons; a name keeps one type, so a string-typed name is only ever assigned strings.
+    * helper functions (W6): `def`s before the prologue, called at STATEMENT level only — `f(args)`, `x = f(args)` with `x` already
+      declared — with pure, well-typed arguments of exactly the parameter types (int/bool/string, one signature per helper); the body
+      is a nested statement of the fragment over its PARAMETERS and LOCALS only (locals first assigned at the top level of the body;
+      parameters never assigned; no tuple assignment; no module-level name, neither read nor written: K01j is the known defect about
+      writes), followed by at most one trailing `return e` with `e` well typed under the body's declarations and `x` declared with its
+      type; a body calls only helpers defined EARLIER (no recursion: `Prog.resolved`, checked by `tr`); the names a body assigns are
+      among `allAssigned` (they are no `for` variables anywhere).  `mon.write` / `sleep` / loops / `break` inside loops of the body are
+      ordinary statements of the fragment.
 -/
 namespace Reduino.Lang
 
